@@ -341,7 +341,8 @@ class Shelxfile():
                     # Not sure if this is a good idea: del reslist[n]
 
     def _read_included_file(self, includefiles: List[str], line: str):
-        include_filename: Path = self.resfile.resolve().parent.joinpath(line[1:])
+        # '++filename' reads the same file as '+filename'; blanks behind the name are not part of it:
+        include_filename: Path = self.resfile.resolve().parent.joinpath(line.lstrip('+').strip())
         # Detect recursive file inclusion:
         if include_filename.name in includefiles:
             raise ValueError('*** Recoursive include files detected! ***')
